@@ -29,7 +29,7 @@ def run(out, tier, seed):
     # ---- percentages
     pr = ranges_by_weight(1, M, 16 if tier == 'quick' else 48, lambda m: m + 1)
     ptabs = fw.pool_map('harness.fnwork', 'c18_perc_rows', pr, chunksize=1)
-    jobs = [{'kind': 'c18perc', 'lo': t['lo'], 'hi': t['hi'], 'rows': t['rows'], 'arr': t['arr']} for t in ptabs]
+    jobs = [{'kind': 'c18perc', 'lo': t['lo'], 'hi': t['hi'], 'rows': t['rows'], 'arr': t['arr'], 'arr2': t['arr2']} for t in ptabs]
     # ---- heights
     hr = [(a, min(a + 12499, 99999)) for a in range(0, 100000, 12500)]
     htabs = fw.pool_map('harness.fnwork', 'c18_heights', [(a, b, step) for a, b in hr], chunksize=1)
